@@ -66,6 +66,9 @@ func Exec(n *e2e.Node, ops []hx.T) (obs any, nontrivial bool, xtags []string, er
 		for _, t := range targets {
 			if c := conns[t]; c != nil {
 				ids = append(ids, c.cl.NetId)
+			} else {
+				// a token no connection of the case has (yet): an id the front-end never handed out
+				ids = append(ids, e2e.GhostId(1<<20+int(t&0xfffff)))
 			}
 		}
 		return ids
@@ -160,6 +163,24 @@ func Exec(n *e2e.Node, ops []hx.T) (obs any, nontrivial bool, xtags []string, er
 			method := ".h.send"
 			if proto {
 				method = ".h.psend"
+			}
+			// many-target id lists / session traffic: the extended handler (harness/e2e/c03_extra.go)
+			if len(o.Args) >= 13 && (o.Int(11) != 0 || o.Int(12) != 0) {
+				arg["Fill"], arg["Sess"] = o.Int(11), o.Int(12)
+				method = ".h.xsend"
+				if proto {
+					method = ".h.pxsend"
+				}
+				if o.Int(11) > 0 && o.Int(7) != 0 {
+					switch k := int(o.Int(11)) + len(o.Ints(8)); {
+					case k < 127:
+						xtags = append(xtags, "ids-2..126")
+					case k > 130:
+						xtags = append(xtags, "ids-131..1028")
+					default:
+						xtags = append(xtags, fmt.Sprintf("ids-%d", k))
+					}
+				}
 			}
 			if e := c.cl.Request(mid, ty+method, e2e.EncodeArg(proto, arg)); e != nil {
 				return nil, false, nil, e
